@@ -36,6 +36,17 @@ def run(tier, seed):
         chk("times-zero", s.times(a, s.zero()), s.zero(), (a,))
         chk("negate", s.negate(a), "(1-(%s))" % a, (a,))
         chk("normalize-one", s.normalize(a, s.one()), a, (a,))
+        for z in ("0.5", "0.5*0.5", "(0.25 + 0.25)", "x*y"):
+            col.case(("normalize", a, z))
+            for x, y in GRID:
+                try:
+                    zv = ev(z, x, y)
+                    if zv != 0 and abs(ev(s.normalize(a, z), x, y) - ev(a, x, y) / zv) > 1e-9:
+                        col.violation("bounded:symbolic:normalize", "normalize(%r, %r) = %r does not evaluate to a/z"
+                                      % (a, z, s.normalize(a, z)), dict(operands=[a, z]))
+                        break
+                except ZeroDivisionError:
+                    pass
         col.case(("value", a))
         if s.value(0.25) != "0.25":
             col.violation("bounded:symbolic:value", "value(0.25) = %r" % s.value(0.25), dict())
